@@ -699,8 +699,9 @@ def _loss_reads_raise_eof_with_text():
 @fact("loss_epilogue_ok", "bool", "false")
 def _loss_epilogue_ok():
     """_thread_receiver: EOFError is remembered in self._error; whatever ended the loop, the epilogue runs
-    _finished_receiving, _terminate_execution, close_read, close_write, _receivepool.trigger_shutdown in that order
-    (no statement of the epilogue is inside the try)"""
+    _finished_receiving UNDER THE RECEIVE LOCK (the model's LFinish is one step with respect to setcallback),
+    _terminate_execution, close_read, close_write, _receivepool.trigger_shutdown in that order (no statement of the
+    epilogue is inside the try)"""
     f = find("gateway_base.py", "BaseGateway._thread_receiver")
     body = [n for n in _Strip().visit(__import__("copy").deepcopy(f)).body if not isinstance(n, ast.FunctionDef)]
     body = [n for n in body if not (isinstance(n, ast.Assign) and _src(n) == "io = self._io")]
@@ -709,7 +710,7 @@ def _loss_epilogue_ok():
     tr = body[0]
     hs = {_src(h.type): _src(h.body) for h in tr.handlers}
     ok = "EOFError" in hs and "self._error = exc" in hs["EOFError"] and "Exception" in hs and not tr.finalbody and not tr.orelse
-    ok = ok and [_src(n) for n in body[1:]] == ["self._channelfactory._finished_receiving()", "self._terminate_execution()", "self._io.close_read()", "self._io.close_write()", "self._receivepool.trigger_shutdown()"]
+    ok = ok and [_src(n) for n in body[1:]] == ["with self._receivelock:\n    self._channelfactory._finished_receiving()", "self._terminate_execution()", "self._io.close_read()", "self._io.close_write()", "self._receivepool.trigger_shutdown()"]
     return "true" if ok else "false"
 
 
